@@ -8,7 +8,9 @@ CONSTANTS
   Den = 60
   N = 4
   Starts = {1}
-  Modes = {"route"}
+  Modes = {"route", "hist"}
+  MaxMut = 3
+  DEV_SetterKeepsDistance = FALSE
   DEV_NoLoopGuard = FALSE
 INVARIANT LawStart
 INVARIANT LawMonotone
@@ -19,6 +21,10 @@ INVARIANT LawOffset
 INVARIANT LawGrid
 INVARIANT LawMerge
 INVARIANT LawMergedPoint
+INVARIANT HistCoherent
+INVARIANT HistRigid
+INVARIANT LawRigidPoint
+INVARIANT HistStretch
 INVARIANT InvResult
 INVARIANT InvSound
 INVARIANT InvBound
